@@ -5,6 +5,7 @@ import (
 	"go/token"
 	"go/types"
 	"math/bits"
+	"os"
 	"strconv"
 	"strings"
 
@@ -279,6 +280,29 @@ func init() {
 		},
 		rtPkg + ".Unsupported": func(in *Interp, caller *frame, fn *ssa.Function, args []Value) Value {
 			panic(unsupported("harness: " + in.concStr(args[0].(Str))))
+		},
+		rtPkg + ".Debug": func(in *Interp, caller *frame, fn *ssa.Function, args []Value) Value {
+			if in.ex.cfg.Verbose {
+				fmt.Fprintf(os.Stderr, "DEBUG %s: %s\n", describe(args[0]), describe(args[1]))
+			}
+			return nil
+		},
+		rtPkg + ".AnyOf": func(in *Interp, caller *frame, fn *ssa.Function, args []Value) Value {
+			r := in.tt.tFalse
+			for _, v := range varargs(args[0]) {
+				r = in.tt.Or(r, v.(*Term))
+			}
+			return r
+		},
+		rtPkg + ".AllOf": func(in *Interp, caller *frame, fn *ssa.Function, args []Value) Value {
+			r := in.tt.tTrue
+			for _, v := range varargs(args[0]) {
+				r = in.tt.And(r, v.(*Term))
+			}
+			return r
+		},
+		rtPkg + ".IteInt": func(in *Interp, caller *frame, fn *ssa.Function, args []Value) Value {
+			return in.tt.Ite(args[0].(*Term), args[1].(*Term), args[2].(*Term))
 		},
 		rtPkg + ".Steps": func(in *Interp, caller *frame, fn *ssa.Function, args []Value) Value {
 			return in.tt.Const(64, uint64(in.steps))
